@@ -708,6 +708,86 @@ impl G {
         let b = self.em.tok(")");
         E::Paren((a, b), Box::new(e))
     }
+    /// the clock-edge test itself: rising_edge ( clk ) | falling_edge ( clk ) | clk ' event   (all primaries)
+    fn edge_atom(&mut self) -> E {
+        if self.rng.chance(1, 2) {
+            let (n, id) = *self.rng.pick(&[("rising_edge", ID_RISING), ("falling_edge", ID_FALLING)]);
+            let f = self.name(n, id);
+            self.em.tok("(");
+            let a = self.read(CLK);
+            let b = self.em.tok(")");
+            E::Call((f.sp().0, b), Box::new(f), vec![a])
+        } else {
+            let p = self.name("clk", CLK);
+            self.em.tok("'");
+            let ev = self.em.tok("event");
+            E::Attr((p.sp().0, ev), Box::new(p), 1, None)
+        }
+    }
+    /// operand of an operator that contains the edge test: a primary, or parenthesised
+    fn edge_operand(&mut self, d: u32) -> E {
+        if d == 0 && self.rng.chance(2, 3) {
+            return self.edge_atom();
+        }
+        let a = self.em.tok("(");
+        let e = self.edge_cond(d);
+        let b = self.em.tok(")");
+        E::Paren((a, b), Box::new(e))
+    }
+    /// the other operand: `clk = '1'` (a bare relation) or a parenthesised condition without any edge test
+    fn edge_plain(&mut self) -> E {
+        if self.rng.chance(1, 2) {
+            let c = self.read(CLK);
+            self.em.tok("=");
+            let v = *self.rng.pick(&["'0'", "'1'"]);
+            let l = self.lit(v);
+            E::Binary((c.sp().0, l.sp().1), Box::new(c), Box::new(l))
+        } else {
+            self.bool_operand(1, CondCtx::Inspected)
+        }
+    }
+    /// a condition `is_likely_clocked` accepts: the edge test in every operand position the classifier descends
+    /// into (left or right operand of a binary operator, under `not`, inside parentheses, nested)
+    fn edge_cond(&mut self, d: u32) -> E {
+        let k = if d == 0 { self.rng.below(4) } else { 1 + self.rng.below(7) };
+        match k {
+            0 => self.edge_atom(),
+            1 | 2 | 7 => {
+                // edge test on the RIGHT
+                let l = self.edge_plain();
+                let op = *self.rng.pick(&["and", "and", "or", "xor"]);
+                self.em.tok(op);
+                let r = self.edge_operand(d.saturating_sub(1));
+                E::Binary((l.sp().0, r.sp().1), Box::new(l), Box::new(r))
+            }
+            3 => {
+                // edge test on the LEFT
+                let l = self.edge_operand(d.saturating_sub(1));
+                let op = *self.rng.pick(&["and", "and", "or"]);
+                self.em.tok(op);
+                let r = self.edge_plain();
+                E::Binary((l.sp().0, r.sp().1), Box::new(l), Box::new(r))
+            }
+            4 => {
+                let a = self.em.tok("not");
+                let e = self.edge_operand(d - 1);
+                E::Unary((a, e.sp().1), Box::new(e))
+            }
+            5 => {
+                let a = self.em.tok("(");
+                let e = self.edge_cond(d - 1);
+                let b = self.em.tok(")");
+                E::Paren((a, b), Box::new(e))
+            }
+            _ => {
+                // both operands hold an edge test
+                let l = self.edge_operand(d - 1);
+                self.em.tok("or");
+                let r = self.edge_operand(d - 1);
+                E::Binary((l.sp().0, r.sp().1), Box::new(l), Box::new(r))
+            }
+        }
+    }
     fn gen_str(&mut self, d: u32) -> E {
         match self.rng.below(4) {
             0 => self.lit("\"msg\""),
@@ -1433,10 +1513,12 @@ fn gen_case(rng: &mut Rng, id: String, label: String, max_depth: u32, allow_outa
         let pre = g.rng.below(2);
         body.extend(g.gen_stmts(pre, depth - 1, 4, true));
         g.em.nl(4);
-        let shape = g.rng.below(4);
+        // shape 0: the edge test in the first condition (optionally followed by further elsif branches);
+        // shape 1: exactly two conditions, the edge test in the second one
+        let shape = g.rng.below(3);
         let mut bs = Vec::new();
         g.em.tok("if");
-        if shape == 2 {
+        if shape == 1 {
             // asynchronous reset first
             let c0 = g.gen_bool(1, CondCtx::Inspected);
             g.em.tok("then");
@@ -1446,47 +1528,23 @@ fn gen_case(rng: &mut Rng, id: String, label: String, max_depth: u32, allow_outa
             g.em.nl(4);
             g.em.tok("elsif");
         }
-        let c = match shape {
-            0 | 2 => {
-                let (n, id) = *g.rng.pick(&[("rising_edge", ID_RISING), ("falling_edge", ID_FALLING)]);
-                let f = g.name(n, id);
-                g.em.tok("(");
-                let a = g.read(CLK);
-                let b = g.em.tok(")");
-                E::Call((f.sp().0, b), Box::new(f), vec![a])
-            }
-            1 => {
-                // clk'event and clk = '1'
-                let p = g.name("clk", CLK);
-                g.em.tok("'");
-                let ev = g.em.tok("event");
-                let l = E::Attr((p.sp().0, ev), Box::new(p), 1, None);
-                g.em.tok("and");
-                let c = g.read(CLK);
-                g.em.tok("=");
-                let one = g.lit("'1'");
-                let r = E::Binary((c.sp().0, one.sp().1), Box::new(c), Box::new(one));
-                E::Binary((l.sp().0, r.sp().1), Box::new(l), Box::new(r))
-            }
-            _ => {
-                // ( rising_edge ( clk ) ) and en = '1'
-                let a = g.em.tok("(");
-                let f = g.name("rising_edge", ID_RISING);
-                g.em.tok("(");
-                let x = g.read(CLK);
-                let b = g.em.tok(")");
-                let call = E::Call((f.sp().0, b), Box::new(f), vec![x]);
-                let b2 = g.em.tok(")");
-                let l = E::Paren((a, b2), Box::new(call));
-                g.em.tok("and");
-                let r = g.bool_operand(1, CondCtx::Inspected);
-                E::Binary((l.sp().0, r.sp().1), Box::new(l), Box::new(r))
-            }
-        };
+        let ed = g.rng.below(4) as u32;
+        let c = g.edge_cond(ed);
         g.em.tok("then");
         let n = g.body_len();
         let b = g.gen_stmts(n, depth - 1, 6, false);
         bs.push((c, b));
+        if shape == 0 && g.rng.chance(1, 3) {
+            for _ in 0..1 + g.rng.below(2) {
+                g.em.nl(4);
+                g.em.tok("elsif");
+                let cx = g.gen_bool(1, CondCtx::Inspected);
+                g.em.tok("then");
+                let n = g.body_len();
+                let bx = g.gen_stmts(n, depth - 1, 6, false);
+                bs.push((cx, bx));
+            }
+        }
         g.em.nl(4);
         g.em.toks("end if ;");
         body.push(S::If(bs, Vec::new()));
